@@ -2,7 +2,7 @@
    refutation of the round trip for run-length encoded sheets (the "repeat > 100" cap). *)
 From Coq Require Import ZArith List Bool Lia ZifyBool.
 From Coq Require Import DecimalString DecimalN.
-From S2T Require Import Lib.PyStr C13.Model.
+From S2T Require Import Lib.PyStr C13.Model C13.ProofsRows.
 Import ListNotations.
 Notation length := List.length.
 Notation concat := List.concat.
@@ -385,16 +385,16 @@ Section Ods.
   Qed.
 
   Lemma findall_rows (f : list ocell -> list xml) g :
-    findall TABLE_ROW (E TABLE_TABLE (map (fun r => E TABLE_ROW (f r)) g))
+    table_rows (E TABLE_TABLE (map (fun r => E TABLE_ROW (f r)) g))
     = map (fun r => E TABLE_ROW (f r)) g.
   Proof.
-    unfold E at 1. apply findall_all. induction g as [|r g IH]; [reflexivity|].
+    unfold table_rows. unfold E at 1. apply collect_all_leaves. induction g as [|r g IH]; [reflexivity|].
     cbn [map forallb]. rewrite IH. unfold tag_is, E. cbn [xtag]. rewrite str_eqb_refl. reflexivity.
   Qed.
 
   (* ---------------- from raw rows to the sheet *)
   Lemma sheet_of_raw table g c :
-    ods_raw_rows pint pflt (findall TABLE_ROW table) = Some (ogrid_spec pflt g) ->
+    ods_raw_rows pint pflt (table_rows table) = Some (ogrid_spec pflt g) ->
     1 <= c -> g <> [] -> rect c g = true ->
     last_row_has_data g = true -> last_col_has_data c g = true ->
     ods_sheet pint pflt table = Some (ogrid_spec pflt g).
